@@ -27,7 +27,7 @@ Fixpoint bany_mismatch (pfs : list bfield) (rfs : list brfd) : res bool :=
   end.
 
 (* the body of the loop of match_packet_descriptor for one rule: true = the rule is yielded
-   (the model has no fragmentation nature: such a rule is neither branch in Python, i.e. skipped) *)
+   (a fragmentation rule is neither branch of the if/elif: it is skipped) *)
 Definition brule_matches (pd : bpdesc) (r : brule) : res bool :=
   match brule_nature r with
   | NoCompression => Ok true                                      (* elif ... NO_COMPRESSION: yield rule *)
@@ -37,6 +37,7 @@ Definition brule_matches (pd : bpdesc) (r : brule) : res bool :=
     (* if len(packet_fields) != len(rule_fields): continue *)
     if negb (length (bpd_fields pd) =? length rfs)%nat then Ok false
     else do mm <- bany_mismatch (bpd_fields pd) rfs ;; Ok (negb mm)
+  | Fragmentation => Ok false                                     (* neither branch: never yielded *)
   end.
 
 (* the generator: the rules yielded in order, until the generator is exhausted or raises *)
